@@ -210,6 +210,11 @@ def lib_case(rng):
         inputs = c["opts"]["inputs"]
     elif r < 0.7:
         inputs = [rng.choice(["a.b.yaml", "sub/c.yaml", "a.yaml", "./sub/../a.b.yaml"])]
+    if rng.random() < 0.15:
+        # a second SetRoot THROUGH a directory symlink that leaves the first root, then a file below that link
+        roots = rng.choice([[".", "ldout"], [".", "{W}/root/ldout"], [".", "./sub/../ldout"], [".", "ldchain"]])
+        c["layout"]["root/ldchain"] = {"link": "ldout"}
+        inputs = [rng.choice(["ldout/decoy.yaml", "ldchain/decoy.yaml", "{W}/root/ldout/decoy.yaml"])]
     lib = {"roots": roots, "inputs": inputs}
     kind = "lib:" + "+".join(roots)
     if rng.random() < 0.25:
